@@ -30,6 +30,8 @@ CONSTANTS Keys,       \* key classes (strings)
           Mutators,   \* library mutators / mutation classes (strings)
           Keep,       \* [Mutators -> SUBSET Keys]
           Valid,      \* [Mutators -> SUBSET Keys]
+          Locked,     \* SUBSET Mutators: mutators that start working inside the cache lock without
+                      \* verifying first (observed on the tree; the intended design has none)
           Side,       \* [Keys -> SUBSET Keys]: keys a getter stores as a side effect of computing k
           CopyVerifies, \* TRUE: copy(include_cache) verifies the source cache first (intended)
           MaxDepth
@@ -71,15 +73,17 @@ Edit(x) ==
     /\ Log([op |-> "edit", o |-> x])
 
 \* a library mutator: verify (it reads the cache), change the data, clear(exclude = Keep), id_set
+\* (leaving a `with cache:` block also sets the id, which stamps whatever is still cached as valid)
 Mutate(x, mu) ==
     /\ obj[x].alive
-    /\ LET o == Verified(obj[x])
+    /\ LET o == IF mu \in Locked THEN obj[x] ELSE Verified(obj[x])   \* `with cache:` skips verify()
            nv == o.ver + 1
        IN obj' = [obj EXCEPT ![x] =
               [o EXCEPT !.ver = nv, !.idcur = nv,
                         !.ent = [k \in Keys |->
                                    IF k \in Keep[mu] /\ o.ent[k] # NoV
-                                   THEN (IF k \in Valid[mu] THEN nv ELSE o.ent[k])   \* kept: right or stale
+                                   \* kept: right only if it was right before AND the transport is valid
+                                   THEN (IF k \in Valid[mu] /\ o.ent[k] = o.ver THEN nv ELSE o.ent[k])
                                    ELSE NoV]]]
     /\ last' = <<>>
     /\ Log([op |-> "mutate", o |-> x, mu |-> mu])
